@@ -125,12 +125,79 @@ def _lens_cases(ctx, nl, rays_per):
             Hy = rng.choice([0.0, 1.0, rng.uniform(-1, 1)])
             if ri == 0:
                 rr, Hy = 0.0, 0.0        # the axial ray lands exactly on every vertex (r = 0)
-            r = tracecorr.impl_trace(o, 0.0, Hy, rr * math.cos(th), rr * math.sin(th), wv)
+            r = tracecorr.impl_trace(o, 0.0, Hy, rr * math.cos(th), rr * math.sin(th), wv, records_check=True)
+            if r[0] == 'records':
+                hist.setdefault('record_shape_violations', []).append(
+                    {'spec': spec, 'ray(Hy,Px,Py)': [Hy, rr * math.cos(th), rr * math.sin(th)],
+                     'oracle': [{'kind': 'records-not-of-traced-rays',
+                                 'detail': f'per-surface record arrays x y z L M N intensity opd have shapes {r[1]} for ONE ray through {r[2]} surfaces'}],
+                     'violates_property': True})
+                continue
             if r[0] == 'err':
                 hist['errors'][r[1]] = hist['errors'].get(r[1], 0) + 1
                 continue
             cases.append(dict(surfs=surfs, w=wv, launch=r[1][0], expect=r[1][1:], recs=r[1], spec=spec))
     return cases, hist
+
+
+def _records_oracle(ctx, n):
+    """'The per-surface intensities and those reported by analyses are those of the traced rays': bundles traced
+    together (incl. bundles that a baffle blocks completely), the per-surface intensity matrix, and SpotDiagram's
+    intensities, against the intensities carried by the rays object returned by an independent trace"""
+    import random, warnings
+    import numpy as np
+    import lensgen
+    from optiland.analysis import SpotDiagram
+    warnings.simplefilter('ignore')
+    rng = random.Random(ctx.seed * 29 + 11)
+    out, nchk = [], 0
+    for li in range(n):
+        spec = lensgen.gen_spec(rng, nsurf=rng.choice([2, 3, 4]), allow=['plane', 'standard'], decenter=False, mirrors=False,
+                                finite_object=False)
+        epd = spec['aperture'][1] if spec['aperture'][0] == 'EPD' else 5.0
+        spec['aperture'] = ['EPD', epd]
+        spec['field_type'] = 'angle'
+        spec['fields'] = [[0.0, 0.0, 0.0, 0.0], [rng.uniform(12.0, 25.0), 0.0, 0.0, 0.0]]
+        # a baffle on the last surface: passes (part of) the axial bundle, blocks the oblique bundle wholly or partly
+        spec['surfaces'][-1]['aperture'] = [epd * rng.uniform(0.2, 0.6), 0.0]
+        if li % 3 == 0:
+            spec['surfaces'][0]['coating'] = [rng.uniform(0.3, 0.9), 0.0]
+        try:
+            o = lensgen.build(spec)
+            wv = spec['wavelengths'][0][0]
+            nsurf = len(o.surface_group.surfaces)
+            bad = []
+            for (Hx, Hy) in ((0.0, 0.0), (0.0, 1.0)):
+                rays = o.trace(Hx, Hy, wv, 3, 'hexapolar')
+                final = np.array(rays.i, dtype=float)
+                nr = final.size
+                per = [np.array(sf.intensity, dtype=float) for sf in o.surface_group.surfaces]
+                mat = np.array(o.surface_group.intensity)
+                nchk += 1
+                if mat.shape != (nsurf, nr):
+                    bad.append({'kind': 'intensity-matrix-shape', 'detail': f'field Hy={Hy}: surface_group.intensity has shape {mat.shape}, '
+                                f'{nsurf} surfaces x {nr} rays were traced ({int((final == 0).sum())} rays end with intensity 0)'})
+                    continue
+                if any(p.shape != (nr,) for p in per) or not np.array_equal(mat, np.array(per)):
+                    bad.append({'kind': 'intensity-matrix-rows', 'detail': f'field Hy={Hy}: matrix rows differ from the surfaces\' own records'})
+                if not np.array_equal(mat[-1], final):
+                    bad.append({'kind': 'intensity-last-row', 'detail': f'field Hy={Hy}: last row sums to {float(mat[-1].sum())!r}, the rays carry {float(final.sum())!r}'})
+                if np.any(np.diff(mat, axis=0) > 1e-15):
+                    bad.append({'kind': 'intensity-increase', 'detail': f'field Hy={Hy}: a column of the matrix increases'})
+            # analysis: SpotDiagram's intensities per field = intensities of an independent trace of that field
+            sd = SpotDiagram(o, fields='all', wavelengths=[wv], num_rings=3)
+            for fi, (Hx, Hy) in enumerate(o.fields.get_field_coords()):
+                ref = np.array(o.trace(Hx, Hy, wv, 3, 'hexapolar').i, dtype=float)
+                got = np.array(sd.data[fi][0][2], dtype=float)
+                nchk += 1
+                if got.shape != ref.shape or not np.allclose(got, ref, rtol=0, atol=1e-15):
+                    bad.append({'kind': 'analysis-intensity', 'detail': f'SpotDiagram field {fi}: reports total intensity {float(np.sum(got))!r}, '
+                                f'the traced rays carry {float(ref.sum())!r}'})
+        except Exception as e:   # noqa
+            bad = [{'kind': 'records-oracle-exception', 'detail': repr(e)[:200]}]
+        if bad:
+            out.append({'spec': spec, 'oracle': bad[:4], 'violates_property': True})
+    return out, nchk
 
 
 def _polarized_oracle(ctx, n):
@@ -188,7 +255,11 @@ def system_checks(ctx):
                                          'oracle': bad[:4], 'violates_property': bool(bad)})
     if cases:
         res['samples'].append({'intensities_per_surface': [r[6] for r in cases[0]['recs']]})
+    res['disagreements'] += hist.pop('record_shape_violations', [])[:3]
     yield res
+    rec, nrec = _records_oracle(ctx, ctx.n(12, 150))
+    yield {'name': 'records-and-analyses-are-those-of-the-traced-rays (bundles, fully blocked bundles, SpotDiagram)', 'n': nrec,
+           'nontrivial': nrec, 'samples': [], 'disagreements': rec[:3]}
     pol = _polarized_oracle(ctx, ctx.n(6, 60))
     yield {'name': 'polarized-path-oracle', 'n': ctx.n(6, 60), 'nontrivial': ctx.n(6, 60), 'samples': [],
            'disagreements': pol[:3]}
@@ -197,10 +268,15 @@ def system_checks(ctx):
 def search(ctx, broken, disagreements):
     import oracles
     cases, hist = _lens_cases(ctx, ctx.n(60, 600), 6)
+    for w in hist.get('record_shape_violations', []):
+        return w
     for c in cases:
         bad = oracles.check_intensity(c['surfs'], c['recs'], c['w'])
         if bad:
             return {'spec': c['spec'], 'launch': c['launch'], 'oracle': bad[:4], 'violates_property': True}
+    rec, _ = _records_oracle(ctx, ctx.n(20, 150))
+    if rec:
+        return rec[0]
     return None
 
 
